@@ -40,7 +40,7 @@ def show(ev):
             return "%s(%s%d)" % (a["ty"], "-" if a["neg"] else "", v)
         return a["ty"]
     return {"format": bytes(ev["f"]).decode("latin-1"), "args": [arg(a) for a in ev["a"]], "got": runs(ev["out"]),
-            "panic": ev["panic"], "allocs": ev["allocs"]}
+            "panic": ev["panic"], "hang": ev.get("hang", False), "allocs": ev["allocs"], **({"call_site": ev["shape"]} if ev.get("shape") else {})}
 
 
 def judge(ctx, legs):
@@ -71,14 +71,17 @@ def judge(ctx, legs):
         what = {"leg": ev["leg"], "input": show(ev), "why": mm[2][0]}
         if len(mm[2]) >= 4 and isinstance(mm[2][1], list):
             what["want"] = show({"f": [], "a": [], "out": mm[2][1], "panic": False, "allocs": 0})["got"]
-        ctx.violation(what, {"cases": [{"f": ev["f"], "a": ev["a"]}], "mismatch": mm})
+        case = {"f": ev["f"], "a": ev["a"]}
+        if ev.get("shape"):
+            case.update({"shape": ev["shape"], "seed": ev.get("seed", 0)})
+        ctx.violation(what, {"cases": [case], "mismatch": mm})
     return mism
 
 
 def run(ctx):
     q = ctx.quick
     ctx.rule = ("a case = (format bytes, tagged argument list); leg G replays the cases TLC enumerated (all byte strings up to length "
-                "3/4 (quick) or 4/5 (thorough) over the 10- and 6-symbol alphabets with <= 2 arguments, plus % width verb for boundary "
+                "3/4 (quick) or 4/5 (thorough) over the 10- and 6-symbol alphabets with <= 2 arguments, plus 2-3 adjacent directives (with/without widths, %t, %%) with exact / short / long argument lists, plus % width verb for boundary "
                 "widths x every boundary value of the eleven integer types, strings, byte slices, booleans and wrong types); leg T draws "
                 "seeded random formats (widths to 10^6, 64-bit values of random bit length, strings to 3 kB, short/long/mistyped argument "
                 "lists, arbitrary byte strings); a case is distinct by (format, arguments) and non-trivial when it has a verb or an argument")
@@ -86,12 +89,13 @@ def run(ctx):
         "the marker texts (MISSING) %!(WRONGTYPE) %!(EXTRA) and true/false are those of the package interface (Kfmt.tla constants)",
         "grammar: literal | %% | % digits verb with width <= 10^6; %t ignores the width; octal/hex sign precedes the zero padding; for other format strings only no-panic and no-allocation are required",
         "wrongly-typed = any argument whose dynamic type is not one of the eleven built-in integer types / string, []byte / bool for the verb (named types are not generated)",
-        "allocation-freeness is testing.AllocsPerRun(3, Fprintf(pre-sized writer, format, pre-built args...)) = 0, measured by the harness and required by the monitor",
+        "allocation-freeness is testing.AllocsPerRun(3, Fprintf(pre-sized writer, format, pre-built args...)) = 0, measured by the harness and required by the monitor; it is also measured for 12 dedicated non-inlined call sites whose arguments live in the caller's stack frame ([]byte of local arrays of 1..200 bytes, strings built from local arrays, local integers), where escape analysis of Fprintf/doWrite decides",
+        "non-termination is decided by CPU time (3 s for one case; the slowest legitimate case needs about 30 ms) of a child process and logged as an event with hang = true, which the monitor rejects",
         "trusted Go: the case decoder/encoder (value <-> {ty, neg, 16-bit limbs}, run-length encoding) in harness/kfmt/c15_fmt_test.go",
     ]
     d = ctx.spec_dir("kfmt")
     cases = os.path.join(ctx.work, "c15_cases.ndjson")
-    bugs = ["NoUint", "SignOutsidePad"] if q else ["NoUint", "Clamp32", "SignOutsidePad", "OctalPadSpace", "PctEndIndex", "BlockStartStay"]
+    bugs = ["NoUint", "SignOutsidePad", "PadLeak"] if q else ["NoUint", "Clamp32", "SignOutsidePad", "OctalPadSpace", "PctEndIndex", "BlockStartStay", "PadLeak"]
 
     # ---- leg M (design model satisfies the property on every case of the scope; emits the cases) + design mutants, side by side
     with concurrent.futures.ThreadPoolExecutor(max_workers=3) as ex:
